@@ -248,7 +248,7 @@ impl TcpClient {
     }
 }
 
-fn connect_from(src: IpAddr, to: SocketAddr) -> Result<TcpStream, String> {
+pub fn connect_from(src: IpAddr, to: SocketAddr) -> Result<TcpStream, String> {
     use std::os::fd::FromRawFd;
     unsafe {
         let (domain, sa_src, sa_dst, len): (i32, libc::sockaddr_storage, libc::sockaddr_storage, u32) = match (src, to) {
